@@ -56,7 +56,9 @@ def valid_docs(rng, n: int) -> list[dict]:
 
 def mutations(rng, doc, per_path: int = 3, max_total: int = 400):
     """(mutated document, label) for deletion / replacement by other kinds / duplication / extra field at every path"""
+    from . import mined
     out = []
+    novel = mined.strs()[:12] + mined.near_ints()[:12]     # constants of the current source the pinned tree lacks (none on the unchanged tree)
     paths = [p for p in gen.json_paths(doc) if p]
     rng.shuffle(paths)
     for p in paths:
@@ -76,8 +78,13 @@ def mutations(rng, doc, per_path: int = 3, max_total: int = 400):
         if isinstance(old, list) and old:
             out.append((gen.set_path(doc, p, old + [old[0]]), "duplicate-element:" + name))
             out.append((gen.set_path(doc, p, old + [old[0].upper() if isinstance(old[0], str) else old[0]]), "duplicate-other-spelling:" + name))
+        for new in (rng.sample(novel, min(2, len(novel))) if novel else []):
+            if not proto.deep_equal(old, new):
+                out.append((gen.set_path(doc, p, new), "replace-mined:" + name))
         if isinstance(old, dict):
             out.append((gen.set_path(doc, p, {**old, "extra_field": 1}), "extra-field:" + name))
+            for k in [x for x in novel if isinstance(x, str)][:3]:
+                out.append((gen.set_path(doc, p, {**old, k: rng.choice([1, True, "x", {}, []])}), "extra-mined-field:" + name))
             out.append((gen.set_path(doc, p, list(old.items()) and [list(kv) for kv in old.items()]), "dict-as-pairs:" + name))
             out.append((gen.set_path(doc, p, list(old.keys())), "dict-as-keylist:" + name))
         if isinstance(old, int) and not isinstance(old, bool):
